@@ -49,6 +49,15 @@ func c02Gen(g *core.Gen) {
 			}
 		}
 	}
+	// and the main alphabet (damage / restore events between the calls): what a later Repair of the same object writes
+	// is original and listed, too
+	for _, f := range []string{"p1", "p2"} {
+		decProtoGen(f, decDepth+1, false, func(d *decProtoCase) {
+			if !d.Fault {
+				g.Emit(&c02Case{Kind: "decproto", Dec: d})
+			}
+		})
+	}
 	D := 3 // all combinations of <=3 operators of the reduced menu in both tiers; thorough adds pairs and triples over the full menu
 	// PAR2: default sets; menu = reduced data menu + recovery-file operators (+ full data menu at D=1)
 	cfgs := []scen.P2Config{
